@@ -207,6 +207,12 @@ def _merge_prefix_items(result: dict, to_add: dict) -> dict:
     prefix_items_b = to_add.get('prefixItems', [])
     assert isinstance(prefix_items_a, list)
     assert isinstance(prefix_items_b, list)
+    # Nothing to merge if one side does not constrain the items at all
+    # (wrapping into allOf anyway would create a new schema on each round of a recursive reference)
+    if 'items' not in to_add and 'prefixItems' not in to_add:
+        return list(prefix_items_a)
+    if 'items' not in result and 'prefixItems' not in result:
+        return list(prefix_items_b)
     result_prefix_items = []
 
     if len(prefix_items_a) > len(prefix_items_b):
